@@ -25,34 +25,53 @@ def spanLine : List Char → List Char × List Char
   | [] => ([], [])
   | c :: r => if c = '\r' ∨ c = '\n' then ([], c :: r) else let (a, b) := spanLine r; (c :: a, b)
 
+/-- `str.isspace()` -/
+def isSpace (c : Char) : Bool :=
+  let n := c.toNat
+  (9 ≤ n && n ≤ 13) || (28 ≤ n && n ≤ 32) || n == 0x85 || n == 0xa0 || n == 0x1680 || (0x2000 ≤ n && n ≤ 0x200a) ||
+  n == 0x2028 || n == 0x2029 || n == 0x202f || n == 0x205f || n == 0x3000
+
+/-- what a block comment is replaced by: its line breaks; if it has none and stands directly between two characters that are
+    no white space (`prev`: the input character in front of it — also the `/` of a preceding comment or a quote —, `next`: the
+    one behind it; none at the start / end of the text), one blank; else nothing -/
+def commentRepl (prev : Option Char) (body : List Char) (next : Option Char) : List Char :=
+  if (newlinesOf body).isEmpty then
+    match prev, next with
+    | some a, some b => if isSpace a || isSpace b then [] else [' ']
+    | _, _ => []
+  else newlinesOf body
+
 /-- `re.sub(r"(\".*?\"|\'.*?\')|(/\*.*?\*/|//[^\r\n]*$)", replacer, text)` with MULTILINE | DOTALL: at each position the
     alternatives are tried in order — a double-quoted string, a single-quoted string (both kept), a block comment, a line
-    comment that reaches the end of its line (both replaced by the newlines they contain); otherwise the character is copied.
-    `fuel` bounds the number of scanner steps by the input length. -/
-def stripAux : Nat → List Char → List Char
-  | 0, l => l
-  | _, [] => []
-  | fuel + 1, c :: r =>
+    comment that reaches the end of its line; otherwise the character is copied.  A comment is replaced by the line breaks it
+    contains, or (`commentRepl`) by one blank when it is all that separates two characters that are no white space, or by
+    nothing; a line comment contains no line break and is followed by one (or by the end of the text), so it is replaced by
+    nothing.  `prev`: the previous character of the INPUT (`text[match.start() - 1]`); `fuel` bounds the number of scanner
+    steps by the input length. -/
+def stripAux : Nat → Option Char → List Char → List Char
+  | 0, _, l => l
+  | _, _, [] => []
+  | fuel + 1, prev, c :: r =>
     if c = '"' ∨ c = '\'' then
       match splitAtChar c r with
-      | some (body, rest) => c :: body ++ c :: stripAux fuel rest
-      | none => c :: stripAux fuel r
+      | some (body, rest) => c :: body ++ c :: stripAux fuel (some c) rest
+      | none => c :: stripAux fuel (some c) r
     else if c = '/' then
       match r with
       | '*' :: r' =>
         match splitAtClose r' with
-        | some (body, rest) => newlinesOf body ++ stripAux fuel rest
-        | none => c :: stripAux fuel r
+        | some (body, rest) => commentRepl prev body rest.head? ++ stripAux fuel (some '/') rest
+        | none => c :: stripAux fuel (some c) r
       | '/' :: r' =>
         let (_, rest) := spanLine r'
         match rest with
         | [] => []
-        | '\n' :: _ => stripAux fuel rest
-        | _ => c :: stripAux fuel r            -- the line ends in CR: `$` does not match, this is not a comment
-      | _ => c :: stripAux fuel r
-    else c :: stripAux fuel r
+        | '\n' :: _ => stripAux fuel (some '/') rest    -- what follows is the newline: `prev` is not looked at there
+        | _ => c :: stripAux fuel (some c) r            -- the line ends in CR: `$` does not match, this is not a comment
+      | _ => c :: stripAux fuel (some c) r
+    else c :: stripAux fuel (some c) r
 
-def stripComments (s : String) : String := String.ofList (stripAux (s.length + 1) s.toList)
+def stripComments (s : String) : String := String.ofList (stripAux (s.length + 1) none s.toList)
 
 /-- a user typedef table: a name is bound to another name (alias) or to a type object (identified by a number) -/
 inductive Bind
